@@ -756,12 +756,13 @@ def _fresh_props(F, path, dup):
     return Adt(path, path.rsplit("::", 1)[1], fields)
 
 
-def probe(F, loop, id_byte, dup=False, value_byte=None, fn_body=None, int_value=None):
+def probe(F, loop, id_byte, dup=False, value_byte=None, fn_body=None, int_value=None, validate_fail=False):
     """Evaluate one iteration of a property loop for a given identifier byte on a *concrete* property set (every optional
     field None, or every optional field already Some when `dup`): duplicate tests, stores and pushes are then observed on
     the struct itself, however the decoder reaches them (inline, `&mut` helper, guard helper).
     Returns {"outcome": ('continue',) | ('err', variant, payload values) | .., "reads": [...], "stores": [(field, value)], "pushes": [field]}"""
     reads = []
+    decisions = []
     state = {"n_u8": 0}
 
     def hook(d, res, args, node, env):
@@ -783,11 +784,17 @@ def probe(F, loop, id_byte, dup=False, value_byte=None, fn_body=None, int_value=
         if r == "common::utils::var_int_len":
             return pe_ok(Sym("varlen"))
         if r.endswith("::try_from") or r.endswith("TryFrom<alloc::string::String>>::try_from") or r.endswith("TryFrom<u32>>::try_from"):
+            if validate_fail and "TopicName" in r:
+                from peval import err as pe_err
+                return pe_err(Adt("common::error::Error", "InvalidTopicName", {"0": args[0]}))
             return pe_ok(Sym(("validated", repr(args[0]))))
         return None
 
     def cond(what, node):
         k = what[0]
+        if k in ("truth", "cmp", "pat-const", "pat-range"):
+            # a condition on a value that was read (or on the validated value): the iteration's outcome depends on it
+            decisions.append(repr(what)[:160])
         if k == "truth":
             return False
         if k == "pat-variant":
@@ -841,7 +848,7 @@ def probe(F, loop, id_byte, dup=False, value_byte=None, fn_body=None, int_value=
                 stores.append((tag[2], ev[2]))
         elif ev[0] == "panic":
             stores.append(("<panic>", ev[1]))
-    return {"outcome": out, "reads": reads, "stores": stores, "pushes": pushes, "events": pe.events}
+    return {"outcome": out, "reads": reads, "stores": stores, "pushes": pushes, "events": pe.events, "decisions": decisions}
 
 
 def probe_table(F, fid):
@@ -863,6 +870,8 @@ def probe_table(F, fid):
         if r["reads"] in (["u16"], ["u32"]) and r["outcome"] == ("continue",):
             top = 0xFFFF if r["reads"] == ["u16"] else 0xFFFFFFFF
             r["ints"] = {iv: probe(F, loop, d, fn_body=_b, int_value=iv) for iv in (0, 1, top)}
+        if v == "ResponseTopic" and r["outcome"] == ("continue",):
+            r["invalid-name"] = probe(F, loop, d, fn_body=_b, validate_fail=True)
         tab[v] = r
     unknown = next(b for b in range(256) if b not in discr.values())
     tab["<unknown>"] = probe(F, loop, unknown, fn_body=_b)
@@ -901,6 +910,10 @@ def t_props(F, R):   # noqa: F811  (supersedes the pattern-based version above)
             if d in want:
                 R.check(out == ("continue",), "T-props", key,
                         "%s: property %s (%#04x) is allowed in %s by the specification but decoding it gives %s" % (name, v, d, packet.upper(), out[:2]), where=loc(loop))
+                dec = tab[v].get("decisions") or []
+                R.check(not dec, "T-props", key + "/value-dependent",
+                        "%s: whether property %s (%#04x) is accepted in %s depends on a condition on the value read (%s); the grammar accepts every "
+                        "well-typed value of this property" % (name, v, d, packet.upper(), "; ".join(dec[:2])), where=loc(loop))
             else:
                 wv = "InvalidWillProperty" if packet == "Will" else "InvalidProperty"
                 ok = out[0] == "err" and out[1] == wv
@@ -990,6 +1003,35 @@ def h_bytevals(F, R):   # noqa: F811
                         "%s: %s with value %d gives %s and stores %s (the integer properties accept every value and store it unchanged)" % (
                             ent["name"], v, iv, out, pr["stores"]), where=loc(loop))
     R.floor("H-intvals", "integer property values", m, 30)
+
+
+def h_topicvals(F, R):
+    """A Response Topic is accepted exactly when TopicName's constructor accepts the string that was read: the iteration reads one
+    string, hands it to the constructor, stores the constructor's result and makes no other decision on the value; when the
+    constructor refuses, the iteration ends in InvalidResponseTopic (evaluated per property loop that allows the property)."""
+    discr, ents = _analyse(F)
+    n = 0
+    for ent in ents:
+        try:
+            tab, loop = probe_table(F, ent["decode"])
+        except AnchorLost:
+            continue
+        r = tab.get("ResponseTopic")
+        if not r or r["outcome"] != ("continue",):
+            continue
+        n += 1
+        st = r["stores"]
+        okk = r["reads"] == ["utf8"] and not r["decisions"] and len(st) == 1 and st[0][0] == "response_topic" \
+            and isinstance(st[0][1], Sym) and isinstance(st[0][1].tag, tuple) and st[0][1].tag[0] == "validated"
+        R.check(okk, "H-topicvals", "%s/accept" % ent["name"],
+                "%s: a Response Topic is decoded with reads %s, decisions %s, stores %s (expected: one string read, handed to TopicName's "
+                "constructor, its result stored, no other condition on the value)" % (ent["name"], r["reads"], r["decisions"][:2], st), where=loc(loop))
+        bad = r.get("invalid-name") or {}
+        out = bad.get("outcome")
+        R.check(out is not None and out[0] == "err" and out[1] == "InvalidResponseTopic" and not bad.get("stores"), "H-topicvals", "%s/refuse" % ent["name"],
+                "%s: when TopicName's constructor refuses the string the iteration gives %s, stores %s (documented: InvalidResponseTopic, nothing stored)" % (
+                    ent["name"], out, bad.get("stores")), where=loc(loop))
+    R.floor("H-topicvals", "property loops with a response topic", n, 2)
 
 
 def h_proplen(F, R):   # noqa: F811
